@@ -146,6 +146,12 @@ pub fn method_call_programs() -> Vec<String> {
         "EI(t).a:m2()",
         "t[EI(\"a\")]:m2()",
         "({v = 2, m = o.m}):m(1)",
+        // receivers that are literals with something to evaluate inside
+        "({v = EI(2), m = o.m}):m(1)",
+        "({v = 2, m = EI(o.m), E1()}):m(E1(3))",
+        "(`a{EI(1)}`):rep(2)",
+        "(`{E1()}{E1(2)}`):len()",
+        "({EI(s)})[1]:rep(2)",
         "s:rep(2)",
         "s:upper()",
         "(\"lit\"):rep(2)",
